@@ -283,6 +283,10 @@ func runSchedule(kind string, next func(busy map[string]bool, round int) *sOp) s
 					return io.EOF
 				case op.x == -2:
 					return ss.Context().Err()
+				case op.x == -3: // the error of some other context the handler used, not a status
+					return context.Canceled
+				case op.x == -4:
+					return context.DeadlineExceeded
 				default:
 					return status.Error(codeOf(op.x), "scripted")
 				}
